@@ -602,7 +602,13 @@ pub fn get_value(
 
             let mut pos: i32 = match &function_args.is_empty() {
                 true => 0,
-                false => *&function_args[0].parse::<i32>().unwrap() - 1,
+                false => match function_args[0].parse::<i32>() {
+                    Ok(pos) => pos - 1,
+                    _ => error_exit(
+                        "Could not parse position argument of SUBSTRING function",
+                        function_args[0].as_str(),
+                    ),
+                },
             };
 
             if pos < 0 {
@@ -611,7 +617,13 @@ pub fn get_value(
             }
 
             let len = match &function_args.get(1) {
-                Some(len) => len.parse::<usize>().unwrap(),
+                Some(len) => match len.parse::<usize>() {
+                    Ok(len) => len,
+                    _ => error_exit(
+                        "Could not parse length argument of SUBSTRING function",
+                        len.as_str(),
+                    ),
+                },
                 _ => 0,
             };
 
@@ -624,6 +636,9 @@ pub fn get_value(
         }
         Some(Function::Replace) => {
             let source = function_arg;
+            if function_args.len() < 2 {
+                error_exit("REPLACE function requires two arguments", source.as_str());
+            }
             let from = &function_args[0];
             let to = &function_args[1];
 
@@ -662,7 +677,13 @@ pub fn get_value(
             match function_arg.parse::<f64>() {
                 Ok(val) => {
                     let power = match function_args.first() {
-                        Some(power) => power.parse::<f64>().unwrap(),
+                        Some(power) => match power.parse::<f64>() {
+                            Ok(power) => power,
+                            _ => error_exit(
+                                "Could not parse an argument of POWER function",
+                                power.as_str(),
+                            ),
+                        },
                         _ => 0.0,
                     };
 
@@ -679,7 +700,13 @@ pub fn get_value(
             match function_arg.parse::<f64>() {
                 Ok(val) => {
                     let base = match function_args.first() {
-                        Some(base) => base.parse::<f64>().unwrap(),
+                        Some(base) => match base.parse::<f64>() {
+                            Ok(base) => base,
+                            _ => error_exit(
+                                "Could not parse an argument of LOG function",
+                                base.as_str(),
+                            ),
+                        },
                         _ => 10.0,
                     };
 
@@ -766,7 +793,13 @@ pub fn get_value(
                 return Variant::empty(VariantType::String);
             }
 
-            let seconds = function_arg.parse::<u64>().unwrap();
+            let seconds = match function_arg.parse::<u64>() {
+                Ok(seconds) => seconds,
+                _ => error_exit(
+                    "Could not parse an argument of FORMAT_TIME function",
+                    function_arg.as_str(),
+                ),
+            };
             let formatted = Duration::from_secs(seconds).to_human_time_string();
             Variant::from_string(&formatted)
         }
@@ -907,11 +940,19 @@ pub fn get_value(
             match function_arg.parse::<i64>() {
                 Ok(val) => {
                     if function_args.is_empty() {
+                        if val <= 0 {
+                            error_exit("Empty range in RANDOM function", function_arg.as_str());
+                        }
                         Variant::from_int(rng.random_range(0..val))
                     } else {
                         let limit = function_args.first().unwrap();
                         match limit.parse::<i64>() {
-                            Ok(limit) => Variant::from_int(rng.random_range(val..limit)),
+                            Ok(limit) => {
+                                if limit <= val {
+                                    error_exit("Empty range in RANDOM function", function_arg.as_str());
+                                }
+                                Variant::from_int(rng.random_range(val..limit))
+                            }
                             _ => error_exit(
                                 "Could not parse limit argument of RANDOM function",
                                 limit.as_str(),
